@@ -198,7 +198,7 @@ def rand_subschema(rng, depth=0, fields=("example", "examples")):
     if rng.random() < 0.12:
         s[rng.choice(["example", "examples", "x-example", "x-examples"])] = [rand_json(rng, 1)]
     if depth < 2:
-        k = rng.random()
+        k = rng.random() * (0.55 if depth == 0 else 1.0)  # top-level fragments mostly carry properties / composition
         if k < 0.25:
             s["properties"] = {rng.choice(["a", "b", "c", "é"]): rand_prop(rng, depth + 1, fields) for _ in range(rng.choice([0, 1, 2, 3]))}
             if rng.random() < 0.5:
@@ -260,6 +260,33 @@ def impl_extract_from_schema(schema, ef, esf):
         ex._generate_single_example = orig
 
 
+def has_ref(v):
+    if isinstance(v, dict):
+        return "$ref" in v or any(has_ref(x) for x in v.values())
+    if isinstance(v, list):
+        return any(has_ref(x) for x in v)
+    return False
+
+
+def impl_top_values(schema):
+    """extract_top_level on a real operation whose only parameter carries the fragment as its schema (OpenAPI 3.0 fields)."""
+    import schemathesis
+    from schemathesis.specs.openapi.examples import extract_top_level
+
+    raw = {
+        "openapi": "3.0.2",
+        "info": {"title": "t", "version": "1"},
+        "paths": {"/f": {"get": {"parameters": [{"name": "q", "in": "query", "schema": copy.deepcopy(schema)}], "responses": {"200": {"description": "ok"}}}}},
+    }
+    try:
+        op = schemathesis.openapi.from_dict(raw)["/f"]["GET"]
+        return ["ok", [canon(e.value) for e in extract_top_level(op)]]
+    except RecursionError:
+        return ["raises", "RecursionError"]
+    except Exception as exc:  # noqa: BLE001
+        return ["raises", type(exc).__name__]
+
+
 def impl_inner_examples(examples, unresolved):
     from schemathesis.specs.openapi.examples import extract_inner_examples
 
@@ -297,10 +324,13 @@ def stage_fragments(chk, n):
         schemas.append((rand_subschema(rng, 0, fields), fields))
     exprs = []
     for s, (ef, esf) in schemas:
-        exprs.append(f"(expand_subschemas {cjson(s)}, extract_from_schema 40 (JStr {cstr(GENERATED)}) {cstr(ef)} {cstr(esf)} {cjson(s)})")
+        exprs.append(
+            f"(expand_subschemas {cjson(s)}, extract_from_schema 40 (JStr {cstr(GENERATED)}) {cstr(ef)} {cstr(esf)} {cjson(s)}, "
+            f"top_values [s_example] s_examples {cjson(s)})"
+        )
     model = coq_eval(exprs)
-    n_ex = n_exp = 0
-    for (s, (ef, esf)), (m_exp, m_ext) in zip(schemas, model):
+    n_ex = n_exp = n_top = 0
+    for (s, (ef, esf)), (m_exp, m_ext, m_top) in zip(schemas, model):
         i_exp = impl_expand(s)
         i_ext = impl_extract_from_schema(s, ef, esf)
         mod_exp, mod_ext = model_values(m_exp), model_values(m_ext)
@@ -311,6 +341,12 @@ def stage_fragments(chk, n):
             chk.disagree("_expand_subschemas vs Model_C17.expand_subschemas", s, i_exp, mod_exp)
         else:
             n_exp += 1
+        if not has_ref(s):
+            i_top, mod_top = impl_top_values(s), model_values(m_top)
+            if not same_outcome(i_top, mod_top):
+                chk.disagree("extract_top_level (schema part) vs Model_C17.top_values", s, i_top, mod_top)
+            else:
+                n_top += 1
         if not same_outcome(i_ext, mod_ext):
             chk.disagree("extract_from_schema vs Model_C17.extract_from_schema", {"schema": s, "fields": [ef, esf]}, i_ext, mod_ext)
         else:
@@ -347,7 +383,7 @@ def stage_fragments(chk, n):
             chk.disagree("extract_inner_examples vs Model_C17.extract_inner_examples", {"examples": e, "unresolved": u}, impl, mod)
         else:
             n_in += 1
-    chk.stages["correspondence_fragments"] = {"schemas": len(schemas), "expand_agree": n_exp, "extract_from_schema_agree": n_ex, "inner_examples": len(inner), "inner_agree": n_in}
+    chk.stages["correspondence_fragments"] = {"schemas": len(schemas), "expand_agree": n_exp, "extract_from_schema_agree": n_ex, "top_values_agree": n_top, "inner_examples": len(inner), "inner_agree": n_in}
 
 
 # ----------------------------------------------------------------------------------------
